@@ -7,6 +7,7 @@ package main
 import (
 	"bytes"
 	"fmt"
+	"io"
 	"sort"
 	"strings"
 	"time"
@@ -439,8 +440,9 @@ func derivRun(c *dCase) (o *derivOut) {
 	snapsTaken := 0
 	var prevSnap [5][]delivery
 
+	closedH := map[int]bool{}
 	for _, op := range c.Ops {
-		if op.H < 0 || op.H >= len(scopes) {
+		if op.H < 0 || op.H >= len(scopes) || closedH[op.H] {
 			continue
 		}
 		parent := scopes[op.H]
@@ -499,6 +501,20 @@ func derivRun(c *dCase) (o *derivOut) {
 			scopes = append(scopes, s)
 			o.scopeCls = append(o.scopeCls, cls)
 			o.obs = append(o.obs, Ev{K: 1, I: []int64{int64(cls)}})
+		case "close":
+			// Close() of a sub-scope (never the root; the generator closes only scopes no other
+			// handle aliases): the next report pass delivers it a last time and drops it; the handle
+			// is not used again. Everything else keeps the tags its derivation denotes.
+			if scopes[op.H] != root {
+				if cl, ok := scopes[op.H].(io.Closer); ok {
+					cl.Close()
+					closedH[op.H] = true
+				}
+			}
+		case "pass":
+			if c.Rep != "test" {
+				tally.VerifReportOnce(root)
+			}
 		case "snap":
 			// Snapshot(): every entry's tag map is handed to the caller, who may do with it what he
 			// likes ("the tags delivered for one scope never change over its lifetime"): the entries
@@ -919,6 +935,7 @@ func derivOne(ctx *Ctx, c *dCase, prop string) {
 	idx := ctx.Res.Evaluations
 	switch c.Stream {
 	case "collide":
+	case "close": // Close / drop / re-derive cycles are C07's model; here only the direct predicates
 	case "empty-key":
 		if canonical && len(fails) == 0 {
 			term = derivTerm(idx, c, o)
